@@ -18,12 +18,14 @@ structure Det (I : FunI F ℝ) (g : ℝ → ℝ) (J : F → PList ℝ → Prop) 
   eval : ∀ fn pl x fn' pl' v, J fn pl → eval0 I fn pl x = .ok (fn', pl', v) → v = g x ∧ J fn' pl'
   /-- `J` is a condition on the function and a condition on the list -/
   mix : ∀ fn pl fn' pl', J fn pl → J fn' pl' → J fn' pl
-  /-- the list after the step holds `x`, and evaluating the function at a list that holds `x`
-  (`function.f(parameters)` without a `setValue`) gives `g x` -/
-  stored : ∀ fn pl x fn' pl' v, J fn pl → eval0 I fn pl x = .ok (fn', pl', v) → value0 pl' = some x
+  /-- the list after the step holds `x` — or, when the parameter is an auto-correcting one with a
+  constraint that refuses `x`, the corrected abscissa `y`, at which `g` has the same value —, and
+  evaluating the function at a list that holds `y` (`function.f(parameters)` without a `setValue`)
+  gives `g y` -/
+  stored : ∀ fn pl x fn' pl' v, J fn pl → eval0 I fn pl x = .ok (fn', pl', v) → ∃ y, value0 pl' = some y ∧ g y = g x
   direct : ∀ fn pl x fn' v, J fn pl → value0 pl = some x → I.f fn pl = .ok (fn', v) → v = g x ∧ J fn' pl
-  /-- a `setValue` without evaluation keeps `J`, and the list then holds the value -/
-  setJ : ∀ fn pl x pl', J fn pl → setValueAt pl 0 x = .ok pl' → J fn pl' ∧ value0 pl' = some x
+  /-- a `setValue` without evaluation keeps `J`, and the list then holds the (corrected) value -/
+  setJ : ∀ fn pl x pl', J fn pl → setValueAt pl 0 x = .ok pl' → J fn pl' ∧ ∃ y, value0 pl' = some y ∧ g y = g x
 
 /-- a recorded point: the value is the function at the abscissa -/
 def BPt.Ok (g : ℝ → ℝ) (p : BPt ℝ) : Prop := p.f = g p.x
